@@ -5,7 +5,7 @@ ROOT = os.path.dirname(os.path.dirname(os.path.abspath(__file__)))
 REPO = os.environ.get("VERIF_REPO", "/repo")
 WORK = os.path.join(ROOT, "work")
 REPLAYS = os.path.join(ROOT, "replays")
-EVID = os.path.join(ROOT, "evidence")
+EVID = os.environ.get("VERIF_EVIDENCE_DIR") or os.path.join(ROOT, "evidence")   # sanity runs against seeded changes write elsewhere
 TARGET = os.path.join(ROOT, "target")
 FEATURE = "breard_r_acmed_verif"
 ACMED = os.path.join(TARGET, "repo", "debug", "acmed")
